@@ -28,6 +28,7 @@ import oracle
 from ser import Ids, Ser, Unsupported, ser, deser
 
 LEAN_MODULE = "Optyx.Props.C04"
+EXTRA_MODULES = ["Optyx.Props.PinsC04"]   # transcription anchors (harness/source_pins.py)
 THEOREMS = [
     "Optyx.Props.C04.degree_sound",
     "Optyx.Props.C04.isLinear_affine",
@@ -40,6 +41,7 @@ THEOREMS = [
     "Optyx.Props.DegreeTie.degree_step",
     "Optyx.Props.DegreeTie.vecDegree_step",
     "Optyx.Props.DegreeTie.step_unique",
+    "Optyx.Props.PinsC04.anchors",
 ]
 ASSUMPTIONS = [
     "theorems are over the reals with NumAlg ℝ (pow = Real.rpow); x / Constant(0) is excluded by NoConstDivZero "
